@@ -65,6 +65,7 @@ class InverterProtocol:
     def _max_retries_reached(self) -> Future:
         logger.debug("Max number of retries (%d) reached, request %s failed.", self.retries, self.command)
         self._close_transport()
+        self._retry = 0
         self.response_future = asyncio.get_running_loop().create_future()
         self.response_future.set_exception(MaxRetriesException)
         return self.response_future
@@ -165,6 +166,7 @@ class UdpInverterProtocol(InverterProtocol, asyncio.DatagramProtocol):
             logger.debug("Response already handled: %s", data.hex())
         except RequestRejectedException as ex:
             logger.debug("Received exception response: %s", data.hex())
+            self._retry = 0
             if self.response_future and not self.response_future.done():
                 self.response_future.set_exception(ex)
             self._close_transport()
@@ -172,6 +174,7 @@ class UdpInverterProtocol(InverterProtocol, asyncio.DatagramProtocol):
     def error_received(self, exc: Exception) -> None:
         """On error received"""
         logger.debug("Received error: %s", exc)
+        self._retry = 0
         try:
             self.response_future.set_exception(exc)
         except asyncio.InvalidStateError:
@@ -302,6 +305,7 @@ class TcpInverterProtocol(InverterProtocol, asyncio.Protocol):
                 self.response_future.set_result(data)
             else:
                 logger.debug("Received invalid response: %s", data.hex())
+                self._retry = 0
                 self.response_future.set_exception(RequestRejectedException())
                 self._close_transport()
         except PartialResponseException as ex:
@@ -313,6 +317,7 @@ class TcpInverterProtocol(InverterProtocol, asyncio.Protocol):
             logger.debug("Response already handled: %s", data.hex())
         except RequestRejectedException as ex:
             logger.debug("Received exception response: %s", data.hex())
+            self._retry = 0
             if self.response_future and not self.response_future.done():
                 self.response_future.set_exception(ex)
             # self._close_transport()
@@ -320,6 +325,7 @@ class TcpInverterProtocol(InverterProtocol, asyncio.Protocol):
     def error_received(self, exc: Exception) -> None:
         """On error received"""
         logger.debug("Received error: %s", exc)
+        self._retry = 0
         self.response_future.set_exception(exc)
         self._close_transport()
 
